@@ -20,6 +20,9 @@ pub fn clone_world(w: &World) -> World {
         shadow: BTreeMap::new(),
         last_trace: vec![],
         last_swap_report: (0, 0, 0, 0),
+        acct_len: w.acct_len.clone(),
+        array_rent: w.array_rent.clone(),
+        pos_rent: w.pos_rent.clone(),
     }
 }
 
@@ -394,11 +397,41 @@ fn run_op(c: &mut World, op: &str, id: u32) -> Result<String, String> {
     }
 }
 
+/// C13: a dynamic array's account length, as driven by the size updates the managers return, is
+/// 148 + 112 x (initialized ticks); the rent units it holds cover its initialized ticks; no position
+/// gives away more than the two units collected at open
+fn c13_sizes(w: &World, ctx: &mut Ctx) {
+    for (start, acc) in &w.arrays {
+        if !acc.dynamic {
+            if w.acct_len.get(start).map_or(false, |l| *l != 148) {
+                ctx.viol(format!("C13 a size update was requested for the FIXED tick array at {}", start));
+            }
+            continue;
+        }
+        let d = acc.data.borrow();
+        let n = u128::from_le_bytes(d[44..60].try_into().unwrap()).count_ones() as i64;
+        let len = *w.acct_len.get(start).unwrap_or(&148);
+        if len != 148 + 112 * n {
+            ctx.viol(format!("C13 dynamic tick array at {}: account length driven by the size updates is {} but it holds {} initialized ticks (148 + 112 x {} = {})", start, len, n, n, 148 + 112 * n));
+        }
+        let rent = *w.array_rent.get(start).unwrap_or(&0);
+        if rent < n {
+            ctx.viol(format!("C13 dynamic tick array at {}: holds {} tick-rent units for {} initialized ticks", start, rent, n));
+        }
+    }
+    for (id, r) in &w.pos_rent {
+        if *r < 0 || *r > 2 {
+            ctx.viol(format!("C13 position {} holds {} of its 2 tick-rent units", id, r));
+        }
+    }
+}
+
 pub fn after_op(w: &mut World, t: &[&str], res: &Result<String, String>, pre: &Snapshot, ctx: &mut Ctx) {
     if res.is_err() {
         return;
     }
     c05(w, ctx);
+    c13_sizes(w, ctx);
     if t[1] == "swap" {
         swap_oracles(w, t, pre, ctx);
     }
